@@ -618,7 +618,11 @@ func agentCanon(sb *strings.Builder, ai int, a *Agent, infos map[[stun.Transacti
 			if cnt > a.maxBindingRequests+1 {
 				cnt = a.maxBindingRequests + 1
 			}
-			ps = append(ps, fmt.Sprintf("[%s>%s/%s %s n=%v d=%v c=%d o=%v]", p.Local.addr(), p.Remote.addr(), p.Remote.Type(), p.state, p.nominated, p.nominateOnBindingSuccess, cnt, p.hasPriorityOverride))
+			dv := -1
+			if p.deferredNominationValue != nil {
+				dv = int(*p.deferredNominationValue)
+			}
+			ps = append(ps, fmt.Sprintf("[%s>%s/%s %s n=%v d=%v/%d c=%d o=%v]", p.Local.addr(), p.Remote.addr(), p.Remote.Type(), p.state, p.nominated, p.nominateOnBindingSuccess, dv, cnt, p.hasPriorityOverride))
 		}
 		sort.Strings(ps)
 		sb.WriteString(strings.Join(ps, ""))
@@ -633,11 +637,22 @@ func agentCanon(sb *strings.Builder, ai int, a *Agent, infos map[[stun.Transacti
 		var ls []string
 		for _, set := range a.localCandidates {
 			for _, c := range set {
-				ls = append(ls, fmt.Sprintf("%s/%s", c.Type(), c.addr()))
+				// the per-candidate cache of validated source addresses is implementation state too
+				var cache []string
+				if cb := candidateBaseOf(c); cb != nil {
+					cb.remoteCandidateCaches.Range(func(k, _ any) bool {
+						cache = append(cache, fmt.Sprint(k))
+
+						return true
+					})
+				}
+				sort.Strings(cache)
+				ls = append(ls, fmt.Sprintf("%s/%s%v", c.Type(), c.addr(), cache))
 			}
 		}
 		sort.Strings(ls)
 		sb.WriteString(" L=" + strings.Join(ls, ","))
+		fmt.Fprintf(sb, " lrv=%d", a.latestRenominationValue)
 		for _, pr := range a.pendingBindingRequests {
 			nv := -1
 			if pr.nominationValue != nil {
@@ -876,4 +891,19 @@ func (pw *pairWorld) checkSelections() {
 			pw.problem(finding, "agent %s: %s", s.name, msg)
 		}
 	}
+}
+
+func candidateBaseOf(c Candidate) *candidateBase {
+	switch v := c.(type) {
+	case *CandidateHost:
+		return &v.candidateBase
+	case *CandidateServerReflexive:
+		return &v.candidateBase
+	case *CandidatePeerReflexive:
+		return &v.candidateBase
+	case *CandidateRelay:
+		return &v.candidateBase
+	}
+
+	return nil
 }
